@@ -7,7 +7,7 @@ reopened database shows the same tables."""
 import itertools, json, re
 from lib import core, runner, e4util
 
-TRANSPARENT = ["scan.next", "txn.commit", "commit.appended", "vacuum.", "compactor.table", "compactor.pinned", "compactor.read_done", "txn.locked"]
+TRANSPARENT = ["txn.start", "scan.next", "txn.commit", "commit.appended", "vacuum.", "compactor.table", "compactor.pinned", "compactor.read_done", "txn.locked"]
 SETUP = ["create table t(a int)", "create table u(a int)", "insert into t values (1),(2)", "insert into t values (3)",
          "insert into u values (1)", "set mock_rowcount_t = 3", "set mock_rowcount_u = 1"]
 INIT = {"t": [1, 2, 3], "u": [1]}
@@ -54,6 +54,11 @@ def workloads(tier):
             m.update(name="mem:" + w["name"], engine="mem", passes=0, reopen=False)
             mem.append(m)
     ws += mem
+    # in the two-DELETE workloads the point at which each transaction of a statement (the scan's and the delete's) pins its
+    # snapshot is a scheduling choice of its own: a scan may pin before, and its DELETE after, another session's commit
+    for w in ws:
+        if "del-t|del-t" in w["name"] or "del-t1|del-t2" in w["name"]:
+            w["transparent"] = [x for x in w["transparent"] if x != "txn.start"]
     for w in ws:
         w["bound"] = 2 if tier == "quick" else 3
         w["max_execs"] = 1500 if tier == "quick" else 40000
